@@ -16,10 +16,10 @@ def main():
     U = "all interleavings up to Mazurkiewicz equivalence (DPOR + sleep sets, virtual time)"
     passes = [
         {"harness": "c14", "cfg": {"requests": "1"}, "budget_s": 70 if tier == "quick" else 300,
-         "label": "single request: 5 methods x 12 paths x 15 body classes (empty, valid, mutated, legacy, garbage, 99999..200000 bytes, bad/absent fingerprint) x 6 Snowflake-NAT-Type values x 3 broker states, then a happy-path probe: " + U},
+         "label": "single request: 5 methods x 12 paths x 15 body classes (empty, valid, mutated, legacy, garbage, 99999..200000 bytes, bad/absent fingerprint) x 6 Snowflake-NAT-Type values x {Content-Length, chunked} x 3 broker states, then a happy-path probe: " + U},
         {"harness": "c14-legacy", "budget_s": 20, "label": "legacy vs versioned client request on identical broker states x 6 NAT header values x 3 states"},
         {"harness": "c14", "cfg": {"requests": "2", "alphabet": "reduced"}, "budget_s": 40 if tier == "quick" else 300,
-         "label": "all ordered pairs of requests from a reduced alphabet of 10 x 3 broker states, then the probe: " + U},
+         "label": "all ordered pairs of requests from a reduced alphabet of 12 x 3 broker states, then the probe: " + U},
     ]
     if tier != "quick":
         passes.append({"harness": "c14", "cfg": {"requests": "3", "alphabet": "reduced"}, "budget_s": 300, "label": "all ordered triples from the reduced alphabet x 3 states"})
